@@ -150,6 +150,26 @@ std::shared_ptr<ThreadEventList> TraceRecorder::getThreadTraceList(
   return fnd->second;
 }
 
+// Names are supplied by the application: escape what JSON does not allow
+// verbatim inside a string
+static std::string jsonEscape(const std::string &s)
+{
+  std::string out;
+  for (const unsigned char c : s) {
+    if (c == '"' || c == '\\') {
+      out += '\\';
+      out += (char)c;
+    } else if (c < 0x20) {
+      char buf[8];
+      std::snprintf(buf, sizeof(buf), "\\u%04x", c);
+      out += buf;
+    } else {
+      out += (char)c;
+    }
+  }
+  return out;
+}
+
 void TraceRecorder::saveLog(const char *logFile, const char *processName)
 {
   std::lock_guard<std::mutex> lock(threadTraceMutex);
@@ -176,7 +196,7 @@ void TraceRecorder::saveLog(const char *logFile, const char *processName)
          << "\"tid\":" << 0 << ","
          << "\"name\":"
          << "\"process_name\","
-         << "\"args\":{\"name\":\"" << processName << "\"}"
+         << "\"args\":{\"name\":\"" << jsonEscape(processName) << "\"}"
          << "},";
   }
 
@@ -196,7 +216,7 @@ void TraceRecorder::saveLog(const char *logFile, const char *processName)
          << "\"thread_name\","
          << "\"args\":{\"name\":\"";
     if (!trace.second->threadName.empty()) {
-      fout << trace.second->threadName << "\"}";
+      fout << jsonEscape(trace.second->threadName) << "\"}";
     } else {
       fout << tid << "\"}";
     }
@@ -228,9 +248,9 @@ void TraceRecorder::saveLog(const char *logFile, const char *processName)
              << "\"pid\":" << pid << ","
              << "\"tid\":" << nextTid << ","
              << "\"ts\":" << timestamp << ","
-             << "\"name\":\"" << (evt.name ? evt.name : "") << "\"";
+             << "\"name\":\"" << jsonEscape(evt.name ? evt.name : "") << "\"";
         if (evt.type != EventType::END && evt.category) {
-          fout << ",\"cat\":\"" << evt.category << "\"";
+          fout << ",\"cat\":\"" << jsonEscape(evt.category) << "\"";
         }
 
         // Compute CPU utilization % over the begin/end interval for end events
